@@ -89,8 +89,8 @@ func cmdSelftest(args []string) int {
 	fails := selftestRegex()
 	fails += selftestStrings()
 	if len(args) == 0 || args[0] != "--no-solvers" {
-		fails += crossCheck("C14", "VsymC14", 4)
-		fails += crossCheck("C05", "VsymC05Final", 150)
+		fails += crossCheck("C14", "VsymC14", 4, map[string]int{"writers": 2, "readers": 1, "urls": 1})
+		fails += crossCheck("C05", "VsymC05Final", 150, nil)
 	}
 	if fails > 0 {
 		fmt.Fprintln(os.Stderr, "selftest FAILED")
